@@ -263,7 +263,7 @@ def run(ctx):
     nwork = 4 if thorough else 1
     parts = [cases[i::nwork] for i in range(nwork)]
     reqs = [{"models": MODELS, "cases": p, "err": ecases if k == 0 else []} for k, p in enumerate(parts)]
-    oracle_req = {"seed": ctx.seed, "models": [m for m in ORACLE_MODELS if thorough or m["tier"] == "quick"]}
+    oracle_req = {"seed": ctx.seed, "quick": not thorough, "models": [m for m in ORACLE_MODELS if thorough or m["tier"] == "quick"]}
     pool = ThreadPoolExecutor(max_workers=nwork + 1)
     futs = [pool.submit(run_py, ctx, "state", rq, 1500 if thorough else 400) for rq in reqs]
     fut_or = pool.submit(run_py, ctx, "oracle", oracle_req, 1700 if thorough else 400)
@@ -393,7 +393,8 @@ def run(ctx):
         for ch in orc["checks"]:
             if not ch["ok"]:
                 ctx.violation("impl_violation", {"oracle": ch["kind"], "model": ch["model"], "what": ch["what"],
-                                                 "mjcf": [m["xml"] for m in ORACLE_MODELS if m["name"] == ch["model"]][0], "seed": ctx.seed},
+                                                 "mjcf": ch.get("mjcf") or [m["xml"] for m in ORACLE_MODELS if m["name"] == ch["model"]][0],
+                                                 "state": ch.get("state"), "seed": ctx.seed},
                               expected="difference <= %g" % ch["tol"], observed="difference %s at %s" % (ch["diff"], ch["where"]),
                               theorem=None, signature={"site": "mjx " + ch["kind"]},
                               note="support oracle on implementation output (no theorem covers this clause)")
